@@ -230,6 +230,8 @@ class SList:
         if self.items is None:
             return
         items = list(self.items)
+        if self.kind == 'ttref':
+            items = [x.ref if isinstance(x, STT) else x for x in items]
 
         if not items:
             from vt.e1.symexec import sym_elem_fn
